@@ -4,7 +4,10 @@
     timestamp XOR is caught by RecoveryOK.
 (G) Gen_FlexFec: TLC enumerates batch descriptors over the mask-field and coverage boundaries; the driver makes them
     concrete and the harness pushes them through FlexEncoder03.EncodeFec / FecInterceptor.
-(T) Trace_FlexFec: TLC lays out every media packet, parses every repair packet and performs the XOR recovery itself."""
+(T) Trace_FlexFec: TLC lays out every media packet, parses every repair packet and performs the XOR recovery itself.
+Growth (notes only, never a verdict): FlexEncoder20 against FlexFec20.tla; the FlexFEC-03 DECODER and the round trip real encoder ->
+    scripted lossy channel -> real decoder against FlexFecDec.tla (MC_/Gen_/Trace_FlexFecDec, harness zz_verif_fecdec_test.go), run
+    concurrently with the checks proper.  An encoder suspect found by the round trip goes through the C14 path (Trace_FlexFec)."""
 import json
 import random
 import re
@@ -414,8 +417,362 @@ def growth(ctx, rng, singles, multi):
     return notes
 
 
+# ------------------------------------------------------------------------------------------------------------------
+# Specification growth attached to C14: the FlexFEC-03 DECODER (pkg/flexfec/flexfec_decoder_03.go, unexported, documented as
+# work in progress / testing only) and the round trip encoder -> lossy channel -> decoder against FlexFecDec.tla.
+# Divergences of the decoder are NOTEs (coverage["growth_notes"], coverage["growth_decoder"]), never a verdict.  Only if the
+# SPECIFICATION's own recovery cannot decode what the real encoder produced (ENCSUSPECT) the script's batches are sent through
+# the C14 path proper (level "enc", Trace_FlexFec), which alone decides.
+
+DEC_HARNESS = HARNESS + ["zz_verif_fecdec_test.go"]
+DEC_READING = {   # what the code does, from reading flexfec_decoder_03.go (attached to a note when its tag / class is involved)
+    "AliasHazard": "insertFECPacket stores &d.recoveredPackets[i] - a pointer INTO the slice - for every protected packet it finds "
+                   "buffered; insertMediaPacket / attemptRecovery later append an older packet and sort.Slice the same backing array, "
+                   "which moves other packets under those pointers: the repair packet then XORs the wrong packets (wrong bytes returned "
+                   "as a recovered packet) or takes a present packet for the missing one",
+    "LinearDiscard": "insertPacket measures the repair-number distance as abs(int(a)-int(b)) > 0x3fff, not modulo 2^16: when the repair "
+                     "numbers wrap 65535 -> 0 every buffered repair packet is 'far' and is dropped, packets they could still recover are lost",
+    "GapNoReset": "DecodeFec tests for a big gap only while len(recoveredPackets) == maxMediaPackets (100) although the buffer grows to 192 "
+                  "(discardOldRecoveredPackets): at any other fill level a jump in the media numbers leaves the old packets and repair packets behind",
+    "hang": "attemptRecovery logs the error of recoverPacket but still appends the (zero) packet and counts a recovery; the repair packet keeps "
+            "missing one packet, so the for loop never terminates (the harness abandons the call after 2000 logged errors)",
+    "invented": "attemptRecovery appends the zero rtp.Packet{} to its result when recoverPacket fails",
+}
+DEC_KS_QUICK = "{2, 5, 16, 47}"
+DEC_TINY = [0, 1, 2, 3]
+
+
+def dec_script(rng, plans, lens, fec0=0):
+    """TLC batch plans (Gen_FlexFecDec) -> concrete round-trip script for TestVerifFecDecExec."""
+    st = stream(rng, 1)
+    media, encs, steps, batches = [], [], [], []
+    seq = 0
+    rows_used = any(d["rows"] for d in plans)
+    for bi, d in enumerate(plans):
+        seq = (seq + d["gap"]) % 65536          # the first plan's gap is the base number
+        at = len(media)
+        media += concrete_batch(rng, {"k": d["k"], "base": seq, "sh": d["sh"], "ln": d["ln"]}, lens, seq)
+        col = len(encs)
+        encs.append({"e": 0, "at": at, "k": d["k"], "n": d["n"], "skip": d["fgap"] + (fec0 if bi == 0 else 0)})
+        rows = []
+        if d["rows"]:
+            for x in range(0, d["k"], d["rows"]):
+                rows.append(len(encs))
+                # encoder 1 numbers its repair packets 5000 ahead of encoder 0 (same repair SSRC: the numbers must not collide)
+                first = not any(e["e"] == 1 for e in encs)
+                encs.append({"e": 1, "at": at + x, "k": min(d["rows"], d["k"] - x), "n": 1, "skip": (fec0 + 5000) if first else 0})
+        batches.append((at, col, rows))
+        for s in d["steps"]:
+            b_at, b_col, b_rows = batches[bi - s["b"]]
+            if s["t"] == "m":
+                steps.append({"t": "m", "i": b_at + s["i"], "c": 0, "j": 0, "mut": []})
+            elif s["t"] == "f":
+                steps.append({"t": "f", "i": 0, "c": b_col, "j": s["i"], "mut": s["mut"]})
+            elif s["t"] == "g":
+                steps.append({"t": "f", "i": 0, "c": b_rows[s["i"]], "j": 0, "mut": s["mut"]})
+            else:
+                steps.append({"t": "x", "i": 0, "c": 0, "j": 0, "mut": []})
+        seq = (seq + d["k"]) % 65536
+    return {"level": "dec", "poison": rng.random() < 0.3, "ssrc": st["ssrc"], "fecssrc": st["fecssrc"], "fecpt": st["fecpt"],
+            "media": media, "encs": encs, "steps": steps,
+            "plan": [{k: d[k] for k in ("k", "n", "gap", "fgap", "rows", "lp", "op")} for d in plans], "rows_used": rows_used}
+
+
+def dec_long_script(rng, small, nplans, fec0, clean=False):
+    """Seeded long stream: nplans TLC plans (k <= 6, no header error cases) chained, with big gaps in the media numbers (150: the
+    reset rule; 20000) and in the repair numbers (17000 > 0x3fff: half-space discard); > 100 repair and > 192 media packets.
+    clean: only plans whose repair packets arrive before their media packets and repair numbers that do not wrap - the arrival
+    patterns on which the decoder AS FOUND agrees with the specification, so that the run gets as far as the buffer limits;
+    such a run starts with exactly 100 loss-free media packets followed by a gap of 150 (the reset rule fires)."""
+    plans = []
+    pool = [d for d in small if d["op"] == 1 and d["rows"] == 0] if clean else small
+    probe = [d for d in pool if d["k"] == 5 and d["lp"] == 0]
+    for i in range(nplans):
+        d = dict(rng.choice(probe if clean and i < 20 else [x for x in probe if x["n"] <= 2] if clean and i == 20 else pool))
+        if clean:
+            d["gap"] = rng.choice([0, 65400, 30000]) if i == 0 else (150 if i in (20, 45) else 20000 if i == 30 else 0)
+        else:
+            d["gap"] = rng.choice([0, 65400, 30000]) if i == 0 else (150 if i % 23 == 11 else 20000 if i == 30 else 0)
+        d["fgap"] = 17000 if i == 24 else 0
+        d["steps"] = list(d["steps"])
+        plans.append(d)
+    if clean:
+        # probes of the buffer limits: a packet whose column lost two (lp 4) arrives 2..70 batches late - the column's repair
+        # packet recovers the other one iff it is still among the newest 100; a lost repair packet (lp 5) arrives late - it
+        # recovers its lost packet iff the rest of its column is still among the newest 192 media packets
+        for i, d in enumerate(plans):
+            back = rng.choice([2, 25, 45, 70])
+            if i + back >= nplans:
+                continue
+            if d["lp"] == 4 and d["k"] > d["n"]:
+                plans[i + back]["steps"].insert(0, {"t": "m", "b": back, "i": 0, "mut": []})
+            elif d["lp"] == 5:
+                plans[i + back]["steps"].insert(0, {"t": "f", "b": back, "i": 0, "mut": []})
+    return dec_script(rng, plans, DEC_TINY, 0 if clean else fec0)
+
+
+def dec_enc_script(sc):
+    """The batches of a round-trip script as a level "enc" script of the C14 path proper (one stream per encoder)."""
+    streams = {}
+    for e in sc["encs"]:
+        st = streams.setdefault(e["e"], {"s": e["e"] + 1, "ssrc": sc["ssrc"], "fecssrc": sc["fecssrc"], "fecpt": sc["fecpt"], "batches": []})
+        st["batches"].append({"n": e["n"], "pkts": sc["media"][e["at"]:e["at"] + e["k"]]})
+    return {"level": "enc", "poison": sc["poison"], "k": 0, "n": 0, "streams": [streams[k] for k in sorted(streams)]}
+
+
+_NOTEDEC = re.compile(r'<<\s*"NOTEDEC",\s*(\d+),\s*"\{(.*?)\}",\s*"\{(.*?)\}"\s*>>', re.S)
+_ENCSUS = re.compile(r'<<\s*"ENCSUSPECT",\s*(\d+),\s*"(.*?)"\s*>>', re.S)
+_DEV = re.compile(r'<<\s*"DEV",\s*(\d+),\s*"\{(.*?)\}"\s*>>', re.S)
+_WORD = re.compile(r'[A-Za-z][A-Za-z-]*')
+
+
+def dec_new_agg():
+    return {"scripts": 0, "traces": 0, "events": 0, "calls": 0, "calls_media": 0, "calls_repair": 0, "calls_header_error_case": 0,
+            "recovered_compared": 0, "traces_full": 0, "traces_diverged": 0, "enc_suspects": [], "kinds": {}, "aborted": [],
+            "dev_traces": {}}
+
+
+def dec_run(ctx, scripts, tag, agg):
+    """Execute round-trip scripts on the real encoder + decoder, let TLC validate every DecodeFec call, aggregate."""
+    inp, outp = ctx.path("C14-%s.in" % tag), ctx.path("C14-%s.trace" % tag)
+    vlib.write_ndjson(inp, scripts)
+    ov = vlib.overlay(ctx, vlib.harness_files(PKG, "flexfec", DEC_HARNESS), name="overlay-%s.json" % tag)
+    rc, out = vlib.go_test(ctx, PKG, ov, "^TestVerifFecDecExec$", env={"VERIF_IN": inp, "VERIF_OUT": outp, "VERIF_SEED": ctx.seed})
+    if rc != 0 or "VERIF-INFRA" in out:
+        agg["aborted"].append("%s: harness run failed: %s" % (tag, " ".join(out[-400:].split())))
+        return
+    events = vlib.read_ndjson(outp)
+    v = vlib.validate(ctx, "Trace_FlexFecDec.tla", outp, xss="256m")
+    consumed = max(v.hw - 1, 0)
+    if not v.accepted:
+        agg["aborted"].append("%s: TLC stopped at event %d of %d: %s" % (tag, v.hw, v.n, vlib.tlc_error(v.out)))
+    script_of, si = {}, -1
+    for i, e in enumerate(events):
+        if e.get("a") == "reset":
+            si += 1
+        script_of[i + 1] = si
+    stop = {}                     # script index -> (line, kind) where TLC stopped comparing
+    for m in _NOTEDEC.finditer(v.out):
+        line = int(m.group(1))
+        stop[script_of[line]] = (line, "note", tuple(sorted(_WORD.findall(m.group(2)))), tuple(sorted(_WORD.findall(m.group(3)))))
+    for m in _ENCSUS.finditer(v.out):
+        line = int(m.group(1))
+        stop[script_of[line]] = (line, "enc", (), ())
+    agg["scripts"] += len(scripts)
+    for m in _DEV.finditer(v.out):          # first time a predicate of FlexFecDec held in a trace
+        for tagname in _WORD.findall(m.group(2)):
+            agg["dev_traces"][tagname] = agg["dev_traces"].get(tagname, 0) + 1
+    for i, e in enumerate(events[:consumed]):
+        a = e.get("a")
+        si = script_of[i + 1]
+        if a == "reset":
+            agg["traces"] += 1
+        if a != "recv" or e["t"] == "-":
+            continue
+        if si in stop and i + 1 > stop[si][0]:
+            continue
+        agg["calls"] += 1
+        kind = "calls_media" if e["t"] == "m" else "calls_repair" if e["t"] == "f" else "calls_other"
+        agg[kind] = agg.get(kind, 0) + 1
+        if e["mutated"]:
+            agg["calls_header_error_case"] += 1
+        if not (si in stop and i + 1 == stop[si][0]):
+            agg["recovered_compared"] += len(e["out"])
+    agg["events"] += consumed
+    agg["traces_full"] += sum(1 for s in range(len(scripts)) if s not in stop)
+    for si, (line, kind, classes, devs) in sorted(stop.items()):
+        sc = scripts[si]
+        if kind == "enc":
+            agg["enc_suspects"].append(sc)
+            continue
+        agg["traces_diverged"] += 1
+        e = events[line - 1]
+        key = (classes, tuple(d for d in devs if d in ("AliasHazard", "LinearDiscard", "GapNoReset", "WideSpan", "HeaderErrorCase")))
+        a = agg["kinds"].setdefault(key, {"traces": 0, "example": None, "example_script": None})
+        a["traces"] += 1
+        size = len(sc["steps"])
+        if a["example"] is None or size < a["example"]["steps"]:
+            a["example"] = {"steps": size, "media_packets": len(sc["media"]), "plan": sc["plan"][:4], "failing_call": sum(
+                1 for j in range([x for x in range(line, 0, -1) if events[x - 1].get("a") == "reset"][0], line + 1)
+                if events[j - 1].get("a") == "recv"),
+                "delivered": ({"t": "m", "seq": e["seq"]} if e["t"] == "m" else {"t": e["t"], "repair_seq": e["seq"]}),
+                "returned": [{"seq": o["seq"], "len": len(o["raw"])} for o in e["out"]][:6], "err": e["err"][:160]}
+            a["example_script"] = sc if size <= 40 else None
+            a["example_full"] = sc
+    ctx.log("(growth) %s: %d scripts, %d events, %d diverging traces, %d encoder suspects" % (
+        tag, len(scripts), consumed, sum(1 for x in stop.values() if x[1] == "note"), sum(1 for x in stop.values() if x[1] == "enc")))
+
+
+def dec_save_replays(ctx, agg):
+    """One replay file per kind of divergence (bin/check C14 --replay <file> prints the note again)."""
+    if getattr(ctx, "replay_mode", False):
+        return
+    for (classes, devs), a in list(agg["kinds"].items())[:12]:
+        if a.get("example_full"):
+            a["replay"] = vlib.save_replay(ctx, {"property": "C14", "kind": "growth-decoder (note, not a verdict)", "seed": ctx.seed,
+                                                 "what": "fecDecoder diverges from FlexFecDec.tla: %s after %s" % ("+".join(classes), ", ".join(devs)),
+                                                 "script": a["example_full"]})
+
+
+def dec_notes(agg):
+    notes = []
+    total = max(agg["traces"], 1)
+    for (classes, devs), a in sorted(agg["kinds"].items(), key=lambda kv: -kv[1]["traces"]):
+        ex = a["example"]
+        text = ("fecDecoder (flexfec_decoder_03.go) diverges from FlexFecDec.tla: %s in %d of %d round-trip traces%s; smallest example: "
+                "%d media packets, plan %s, DecodeFec call #%d (%s) returned %s%s" % (
+                    "+".join(classes) or "(no class)", a["traces"], total,
+                    (" [after " + ", ".join(devs) + "]") if devs else "", ex["media_packets"],
+                    json.dumps(ex["plan"], separators=(",", ":")), ex["failing_call"], json.dumps(ex["delivered"], separators=(",", ":")),
+                    json.dumps(ex["returned"], separators=(",", ":")), (" " + ex["err"]) if ex["err"] else ""))
+        note = {"component": "fecDecoder", "clause": "+".join(classes), "after": list(devs), "traces_diverging": a["traces"],
+                "traces_evaluated": agg["traces"], "example": ex, "text": text}
+        rd = [DEC_READING[k] for k in list(devs) + list(classes) if k in DEC_READING]
+        if rd:
+            note["reading"] = rd
+        if a["example_script"]:
+            note["example_script"] = a["example_script"]
+        if a.get("replay"):
+            note["replay"] = a["replay"]
+            note["text"] += "; replay=%s" % a["replay"]
+        notes.append(note)
+    for t in agg["aborted"]:
+        notes.append({"component": "fecDecoder", "clause": "(growth run incomplete)",
+                      "text": "fecDecoder round-trip growth run incomplete: %s" % t})
+    return notes
+
+
+def dec_growth(ctx, rng):
+    """The decoder growth: (M) design, (G) round-trip scripts, (exec + T) on the real encoder and decoder.  Returns (agg, notes)."""
+    agg = dec_new_agg()
+    try:
+        if ctx.quick:
+            vlib.model_check(ctx, "MC_FlexFecDec.tla", vlib.cfg_variant(ctx, "MC_FlexFecDec.cfg", {"Bases": "{65534}", "FBases": "{65535}"}),
+                             workers=2, note="growth: decoder design, one batch, all k <= 4, n <= 3, every loss subset / arrival order / "
+                                             "duplication, media and repair numbers wrapping")
+        else:
+            vlib.model_check(ctx, "MC_FlexFecDec.tla", vlib.cfg_variant(ctx, "MC_FlexFecDec.cfg", {"MaxK": 5, "MaxN": 4}), workers=4,
+                             timeout=1200, note="growth: decoder design, one batch, all k <= 5, n <= 4, every loss subset / order / duplication")
+            vlib.model_check(ctx, "MC_FlexFecDec.tla", vlib.cfg_variant(ctx, "MC_FlexFecDec.cfg", {
+                "MaxK": 3, "MaxN": 2, "NB": 2, "Bases": "{65534}", "FBases": "{65535}"}),
+                             workers=4, timeout=1200, note="growth: decoder design, two successive batches through one decoder")
+            vlib.model_check(ctx, "MC_FlexFecDec.tla", "MC_FlexFecDec_lim.cfg", workers=4, timeout=1200,
+                             note="growth: decoder design with scaled-down buffer limits (reset 3, 2 repair, keep 4, half space 15 of 64)")
+            for inv in ("NoReset", "NoHalf", "NoFecFull", "NoMedFull", "NoGapNoReset"):
+                vlib.model_check(ctx, "MC_FlexFecDec.tla", _dec_reach_cfg(ctx, inv), workers=2,
+                                 expect_violation="Invariant %s is violated" % inv, note="growth: reachability control (limit mechanism fires)")
+        vlib.model_check(ctx, "MC_FlexFecDec.tla", "MC_FlexFecDec_neg.cfg", workers=2,
+                         expect_violation="Invariant NoWrongRecovery is violated",
+                         note="growth: negative control - recovery attempted with two packets missing")
+        # (G)
+        if ctx.quick:
+            singles = vlib.generate(ctx, "Gen_FlexFecDec.tla", vlib.cfg_variant(ctx, "Gen_FlexFecDec.cfg", {
+                "Ks": DEC_KS_QUICK, "Bases": "{65530}"}), workers=2)
+            multi = vlib.generate(ctx, "Gen_FlexFecDec.tla", vlib.cfg_variant(ctx, "Gen_FlexFecDec.cfg", {
+                "Ks": "{2, 5}", "L": 2, "Bases": "{65530}", "OPs": "{0, 3, 4}", "LPs": "{1, 3, 5}"}), workers=2)
+        else:
+            singles = vlib.generate(ctx, "Gen_FlexFecDec.tla", "Gen_FlexFecDec.cfg", workers=4)
+            multi = vlib.generate(ctx, "Gen_FlexFecDec.tla", vlib.cfg_variant(ctx, "Gen_FlexFecDec.cfg", {
+                "Ks": "{2, 5, 16}", "L": 2, "Bases": "{65530}", "OPs": "{0, 1, 3, 4, 6}", "LPs": "{1, 3, 5, 7}"}), workers=4)
+            multi += vlib.generate(ctx, "Gen_FlexFecDec.tla", vlib.cfg_variant(ctx, "Gen_FlexFecDec.cfg", {
+                "Ks": "{4}", "L": 3, "Bases": "{65530}", "OPs": "{0, 4}", "LPs": "{3, 7}"}), workers=4)
+        singles.sort(key=json.dumps)      # TLC's workers print in a varying order: keep the seeded selection reproducible
+        multi.sort(key=json.dumps)
+        small = [b[0] for b in singles if b[0]["k"] <= 6 and b[0]["op"] != 7]
+        n_single, n_multi, n_long, len_long = (70, 16, 2, 80) if ctx.quick else (850, 200, 10, 120)
+        # every (loss pattern, arrival order) pair at least once, the rest sampled
+        by_lo = {}
+        for b in singles:
+            by_lo.setdefault((b[0]["lp"], b[0]["op"]), []).append(b)
+        pick = [rng.choice(by_lo[k]) for k in sorted(by_lo)]
+        pick = pick[:n_single] + rng.sample(singles, max(0, min(n_single - len(pick), len(singles))))
+        scripts = []
+        for b in pick:
+            big = b[0]["k"] <= 5 and rng.random() < 0.04
+            scripts.append(dec_script(rng, b, lens_for(rng, True) if big else LENS, rng.choice([0, 0, 0, 64530, 64534])))
+        scripts += [dec_script(rng, b, LENS, rng.choice([0, 64530])) for b in rng.sample(multi, min(n_multi, len(multi)))]
+        scripts += [dec_long_script(rng, small, len_long, rng.choice([0, 64500, 40000]), clean=i % 2 == 0) for i in range(n_long)]
+        rng.shuffle(scripts)
+        chunk = 400 if ctx.quick else 320
+        for i in range(0, len(scripts), chunk):
+            dec_run(ctx, scripts[i:i + chunk], "growthdec-%d" % (i // chunk), agg)
+        dec_save_replays(ctx, agg)
+    except vlib.Infra as e:       # the growth part never decides C14
+        agg["aborted"].append("inconclusive: %s" % " ".join(str(e).split())[:500])
+    return agg, dec_notes(agg)
+
+
+def _dec_reach_cfg(ctx, inv):
+    src = open(ctx.path("spec", "MC_FlexFecDec_reach.cfg")).read()
+    name = "MC_FlexFecDec_reach_%s.cfg" % inv
+    with open(ctx.path("spec", name), "w") as f:
+        f.write(re.sub(r"INVARIANTS \w+", "INVARIANTS " + inv, src))
+    return name
+
+
+def dec_publish(ctx, agg, notes):
+    """Notes and counts of the decoder growth into the evidence; encoder suspects through the C14 path proper."""
+    if agg["traces"]:
+        print("NOTE: growth C14/fecDecoder round trip (FlexFecDec.tla): %d of %d traces diverge in %d kinds (%d DecodeFec calls compared, "
+              "%d recovered packets byte-identical to the original); the decoder is WIP/testing-only: notes, not verdicts" % (
+                  agg["traces_diverged"], agg["traces"], len(agg["kinds"]), agg["calls"], agg["recovered_compared"]), flush=True)
+    for n in notes[:8]:
+        print("NOTE: growth C14/%s" % n["text"], flush=True)
+    if len(notes) > 8:
+        print("NOTE: growth C14/fecDecoder: %d more kinds of divergence in %d traces (all in coverage.growth_notes)" % (
+            len(notes) - 8, sum(n.get("traces_diverging", 0) for n in notes[8:])), flush=True)
+    for sc in agg["enc_suspects"][:6]:
+        ctx.log("decoder growth: the specification's own recovery does not reproduce the original for a script: sending its batches "
+                "through the C14 path (Trace_FlexFec)")
+        run_batch(ctx, [dec_enc_script(sc)], "dec-encsuspect")
+    ctx.cov["growth_notes"] = ctx.cov.get("growth_notes", []) + notes
+    ctx.cov["growth_decoder"] = {
+        "what": "fecDecoder (pkg/flexfec/flexfec_decoder_03.go, documented as WIP / testing only) and the round trip FlexEncoder03 -> "
+                "lossy channel -> fecDecoder against spec/FlexFecDec.tla; behaviour C14 does not state - divergences are notes, not verdicts",
+        "scripts": agg["scripts"], "traces_validated": agg["traces"], "events": agg["events"],
+        "decode_calls_compared": agg["calls"], "of_which_media": agg["calls_media"], "of_which_repair": agg["calls_repair"],
+        "of_which_header_error_cases": agg["calls_header_error_case"],
+        "recovered_packets_compared_byte_for_byte": agg["recovered_compared"],
+        "traces_agreeing_to_the_end": agg["traces_full"], "traces_diverging": agg["traces_diverged"],
+        "encoder_suspects_sent_to_c14_path": len(agg["enc_suspects"]),
+        "traces_in_which_a_spec_predicate_held_before_any_divergence": dict(sorted(agg["dev_traces"].items())),
+        "divergence_kinds": [{"classes": list(k[0]), "after": list(k[1]), "traces": a["traces"]} for k, a in
+                             sorted(agg["kinds"].items(), key=lambda kv: -kv[1]["traces"])],
+    }
+
+
+def dec_start(ctx):
+    """Run the decoder growth concurrently with the C14 checks proper (own scratch context, own seeded stream)."""
+    import threading
+    child = vlib.Ctx(ctx.pid, ctx.tier, ctx.seed)
+    child.replay_mode = getattr(ctx, "replay_mode", False)
+    box = {}
+
+    def work():
+        try:
+            box["res"] = dec_growth(child, random.Random(ctx.seed * 7919 + 14))
+        except Exception as e:      # noqa: BLE001 - growth must never take the check down
+            agg = dec_new_agg()
+            agg["aborted"].append("inconclusive: %s: %s" % (type(e).__name__, " ".join(str(e).split())[:400]))
+            box["res"] = (agg, dec_notes(agg))
+    th = threading.Thread(target=work, daemon=True)
+    th.start()
+    return th, child, box
+
+
+def dec_join(ctx, handle):
+    th, child, box = handle
+    th.join()
+    for k in ("states", "transitions", "behaviours_generated"):
+        ctx.cov[k] += child.cov[k]
+    ctx.cov["model_runs"] += child.cov["model_runs"]
+    agg, notes = box["res"]
+    dec_publish(ctx, agg, notes)
+
+
 def run(ctx):
     rng = random.Random(ctx.seed)
+    dec = dec_start(ctx)      # growth: FlexFEC-03 decoder round trip, concurrently (notes only)
     # (M)
     if ctx.quick:
         vlib.model_check(ctx, "MC_FlexFec.tla", vlib.cfg_variant(ctx, "MC_FlexFec.cfg", {
@@ -492,6 +849,8 @@ def run(ctx):
 
     # specification growth (RFC 8627 encoder): notes only
     growth(ctx, rng, singles, multi)
+    # specification growth (FlexFEC-03 decoder, round trip): notes only; an encoder suspect goes through run_batch above
+    dec_join(ctx, dec)
 
     ctx.assumptions += [
         "FlexFec.tla is the reading of the property: FlexFEC-03 header as implemented (R = F = 0, k-bit set on the last mask "
@@ -509,6 +868,11 @@ def run(ctx):
 
 def replay(ctx, path):
     for sc in vlib.replay_scripts(path):
+        if sc.get("level") == "dec":                # decoder growth scripts: notes only
+            agg = dec_new_agg()
+            dec_run(ctx, [sc], "growthdec-replay", agg)
+            dec_publish(ctx, agg, dec_notes(agg))
+            continue
         if sc.get("level", "").endswith("20"):      # growth scripts: notes only
             agg = {"batches": 0, "repairs": 0, "traces": 0, "events": 0, "batches_with_notes": 0, "clauses": {}, "aborted": []}
             growth_run(ctx, [sc], "growth20-replay", agg)
